@@ -78,6 +78,7 @@ class Rec:
         self.dflt = False
         self.cfg = cfg
         self.erand = _random.Random(rnd.getrandbits(32))     # which entry point realises an action (add / add_alt, check / check_alt / in)
+        self.pdens = self.erand.choice([1.0, 1.0, 0.3, 0.08]) if not big else 1.0
         self.make()
 
     # -- construction ----------------------------------------------------------------------------
@@ -264,6 +265,10 @@ class Rec:
         return [[j + 1, int(self.do_check(self.keys[j]))] for j in idxs]
 
     def emit(self, op, ks, a=0, ret=0, probe_idx=(), full=False, lost=0):
+        # observation density: in some traces most events are NOT followed by look-ups / dumps, so that state the code keeps between
+        # public calls (a memo of the last answer, a cached count) is not refreshed by the observer after every step
+        if self.pdens < 1.0 and self.erand.random() >= self.pdens:
+            probe_idx, full = (), False
         ev = {"op": op, "ks": [[k + 1, amt] for k, amt in ks], "a": a, "ret": int(ret or 0), "n": getattr(self.obj, "elements_added", 0),
               "probes": self.probes(probe_idx), "full": self.full() if full else [], "aux": self.aux(lost)}
         self.tr["ev"].append(ev)
